@@ -22,6 +22,7 @@ def cases(tier, rng):
         for kind in ("getflag", "setflag", "resetflag"):
             lines.append("%s %s%d %d %d %d" % (kind, kind[0], n, a, f, m))
             n += 1
+    lines.append("consts k0")
     for v in words:
         lines.append("setu16 u%d %d %d %d" % (n, (v * 3) & 0xFF, (v * 5 + 1) & 0xFF, v))
         n += 1
@@ -39,6 +40,8 @@ def oracle(line):
         return [str(v) for v in (x[0], x[1] | x[2], 1, 2, 3, 4, 5, 6)]
     if kind == "resetflag":
         return [str(v) for v in (x[0], x[1] & ~x[2] & 0xFF, 1, 2, 3, 4, 5, 6)]
+    if kind == "consts":
+        return ["1", "2", "4", "8", "16", "32", "64", "128"]
     if kind == "setu16":
         return [str(v) for v in (x[2] >> 8, x[2] & 0xFF, x[2])]
 
@@ -67,7 +70,7 @@ def run(tier, seed):
         return 1
     if not broken:
         drv = pipeline.build_driver()
-        mism, _ = pipeline.compare(lines, go_bin, drv, model=0)
+        mism, _ = pipeline.compare([l for l in lines if not l.startswith("consts")], go_bin, drv, model=0)
         if mism:
             broken = "correspondence Gen-vs-Go on %d of %d cases" % (len(mism), len(lines))
             detail = str(mism[0])
